@@ -303,6 +303,24 @@ func davWorker(cl *webdav.Client, i, steps int, r *rand.Rand, ov *overlap, jitte
 	return model, bad
 }
 
+// brokenBody delivers n bytes and then fails.
+type brokenBody struct{ n, pos int }
+
+func (b *brokenBody) Read(p []byte) (int, error) {
+	if b.pos >= b.n {
+		return 0, errors.New("verif: upload broke off")
+	}
+	k := len(p)
+	if b.n-b.pos < k {
+		k = b.n - b.pos
+	}
+	for i := 0; i < k; i++ {
+		p[i] = 'P'
+	}
+	b.pos += k
+	return k, nil
+}
+
 type schedCfg struct {
 	Server     string `json:"server"` // webdav | caldav | carddav
 	Transport  string `json:"transport"`
@@ -335,6 +353,15 @@ func runDavSchedule(c *fw.Ctx, cfg schedCfg, idx int) {
 	if err != nil {
 		c.Inconclusive(err.Error())
 		return
+	}
+	// Prelude: a few uploads that break off, BEFORE the concurrent phase.
+	// State a failure path leaves behind in the handler or the file system
+	// layer (a buffer returned twice, a stale cache) only shows up in the
+	// requests that follow.
+	for k := 0; k < 3; k++ {
+		req := httptest.NewRequest("PUT", fmt.Sprintf("http://dav.test/prelude-%d", k), &brokenBody{n: 100 + 5000*k})
+		req.ContentLength = 1 << 20
+		h.ServeHTTP(httptest.NewRecorder(), req)
 	}
 	ov := newOverlap()
 	models := make([]map[string]string, cfg.N)
@@ -385,6 +412,10 @@ func runDavSchedule(c *fw.Ctx, cfg schedCfg, idx int) {
 	}
 	for p := range snap {
 		if p == "" {
+			continue
+		}
+		if strings.HasPrefix(p, "prelude-") {
+			diffs = append(diffs, "a broken prelude upload left "+p)
 			continue
 		}
 		if _, ok := want[p]; !ok {
